@@ -53,6 +53,13 @@ def strdesc(st, s):
 
 def deep(st, ex, v):
     """heap value -> abstract value"""
+    try:
+        return _deep(st, ex, v)
+    except Unmodelled:
+        return ('symbolic', origin(st, v))
+
+
+def _deep(st, ex, v):
     v = obj(st, v)
     if not isinstance(v, ObjV): return ('opq', str(v))
     if 'discr' not in st.heap[v.oid]: return ('opq', origin(st, v))
@@ -62,8 +69,8 @@ def deep(st, ex, v):
     if name == 'Null': return ('null',)
     if name == 'Boolean': return ('bool', h[('f', 'Boolean', 0)].t)
     if name == 'String': return strdesc(st, h[('f', 'String', 0)])
-    if name == 'Array': return ('arr', [deep(st, ex, x) for x in model(st, h[('f', 'Array', 0)])])
-    if name == 'Object': return ('obj', [(strdesc(st, k), deep(st, ex, x)) for k, x in model(st, h[('f', 'Object', 0)])])
+    if name == 'Array': return ('arr', [_deep(st, ex, x) for x in model(st, h[('f', 'Array', 0)])])
+    if name == 'Object': return ('obj', [(strdesc(st, k), _deep(st, ex, x)) for k, x in model(st, h[('f', 'Object', 0)])])
     nv = obj(st, h[('f', 'Number', 0)]); nd = cval(ex.discr(st, nv).t); NV = ex.enums['NumberValue']
     if nd is None: return ('symbolic', origin(st, nv))
     p = st.heap[nv.oid].get(('f', NV[nd], 0))
@@ -116,7 +123,12 @@ def pretty(a, m=None):
     if t == 'bool': return ev(a[1]).lower()
     if t == 'num': return f'{a[1]}({ev(a[2])})'
     if t in ('float', 'opq', 'ostr', 'symbolic'): return f'<{a[1]}>'
-    if t == 'str': return 'str' + str([ev(b) for b in a[1]])
+    if t == 'str':
+        vals = [ev(b) for b in a[1]]
+        if all(v.isdigit() for v in vals):
+            try: return json.dumps(bytes(int(v) for v in vals).decode('utf-8'))
+            except Exception: pass
+        return 'str' + str(vals)
     if t == 'arr': return '[' + ', '.join(pretty(x, m) for x in a[1]) + ']'
     if t in ('obj', 'uobj'): return '{' + ', '.join(pretty(k, m) + ': ' + pretty(v, m) for k, v in a[1]) + '}'
     if t == 'anyof': return ' or '.join(pretty(x, m) for x in a[1])
@@ -135,11 +147,25 @@ def to_json(a, m):
     if t == 'num':
         n = ev(a[2]); return n - 2 ** 64 if a[1] == 'Negative' and n >= 2 ** 63 else n
     if t == 'str': return bytes(ev(b) for b in a[1]).decode('utf-8', errors='replace')
+    if t == 'float': return 1.5
     if t == 'ostr': return a[1].lower()
     if t == 'opq': return {'opaque': a[1]}
     if t == 'arr': return [to_json(x, m) for x in a[1]]
-    if t in ('obj', 'uobj'): return {to_json(k, m): to_json(v, m) for k, v in a[1]}
+    if t == 'obj': return {to_json(k, m): to_json(v, m) for k, v in a[1]}
+    if t == 'uobj': return dict([('__unordered__', True)] + [(to_json(k, m), to_json(v, m)) for k, v in a[1]])
     raise ValueError(a)
+
+
+def jsame(got, exp):
+    """native value == expected value; member order matters unless the expectation is marked unordered"""
+    if isinstance(exp, dict):
+        if not isinstance(got, dict): return False
+        if exp.get('__unordered__'):
+            e2 = {k: v for k, v in exp.items() if k != '__unordered__'}
+            return set(got) == set(e2) and all(jsame(got[k], e2[k]) for k in e2)
+        return list(got) == list(exp) and all(jsame(got[k], exp[k]) for k in exp)
+    if isinstance(exp, list): return isinstance(got, list) and len(got) == len(exp) and all(jsame(a, b) for a, b in zip(got, exp))
+    return type(got) == type(exp) and got == exp
 
 
 # ---------------------------------------------------------------- closures and lazy iterator adaptors
@@ -295,6 +321,31 @@ def absteq(x, y):
     return match(x, y)
 
 
+def s_map_entry(ex, st, func, args, ty):
+    e = named(st, st.fresh_name('entry'), 'Entry'); st.heap[e.oid]['entry'] = (obj(st, args[0]), obj(st, args[1])); return [(st, e)]
+
+
+def s_entry_or_insert_with(ex, st, func, args, ty):
+    """Entry::or_insert_with(Vec::new) / or_default / or_insert(v): a reference to the value under the key, inserted at the end when absent"""
+    mp, key = st.heap[obj(st, args[0]).oid]['entry']
+    for kk, vv in model(st, mp):
+        if same_key(st, kk, key): return [(st, slot(st, obj(st, vv)))]
+    if 'or_insert_with' in func:
+        if not re.search(r'Vec::<.*>::new\}?>?$|fn\(\) -> Vec<', func): raise Unmodelled('or_insert_with of ' + func[-60:])
+        v = seqobj(st, 'Vec', ())
+    elif 'or_default' in func: v = seqobj(st, 'Vec', ())
+    else: v = obj(st, args[1])
+    set_model(st, mp, tuple(model(st, mp)) + ((key, v),))
+    return [(st, slot(st, v))]
+
+
+def s_map_iter(ex, st, func, args, ty):
+    items = []
+    for k, v in model(st, args[0]):
+        t = named(st, st.fresh_name('kv'), 'tuple'); st.heap[t.oid][('f', None, 0)] = slot(st, k); st.heap[t.oid][('f', None, 1)] = slot(st, v); items.append(t)
+    return [(st, seqobj(st, 'Iter', items))]
+
+
 def s_type_name(ex, st, func, args, ty): return [(st, named(st, st.fresh_name('typename'), 'String'))]
 
 
@@ -330,7 +381,8 @@ def extra_summaries():
             (r'^<&str as Into<std::string::String>>::into$|^<str as ToString>::to_string$|^<std::string::String as From<&str>>::from$|<&str as ToString>::to_string$|^<std::string::String as Clone>::clone$|^<str as ToOwned>::to_owned$', s_const_string),
             (r'String::push_str$', s_push_str), (r'String::as_str$|<std::string::String as AsRef<str>>::as_ref$', s_identity),
             (r'^<JsonValue as PartialEq>::(eq|ne)$|^<Option<JsonValue> as PartialEq>::(eq|ne)$|^<std::option::Option<JsonValue> as PartialEq>::(eq|ne)$', s_jv_eq),
-            (r'JsonValue::type_name$', s_type_name)]
+            (r'IndexMap::<.*>::entry$', s_map_entry), (r'Entry::<.*>::or_insert_with::<|Entry::<.*>::or_default$|Entry::<.*>::or_insert$', s_entry_or_insert_with),
+            (r'IndexMap::<.*>::iter$', s_map_iter), (r'JsonValue::type_name$', s_type_name)]
 
 
 # ---------------------------------------------------------------- argument shapes
@@ -454,6 +506,9 @@ def ref_put_if(absent):
     return ref
 
 
+def body_of(path): return r'get::\{closure#0\}::<impl at src/functions/%s\.rs:[^>]*>::get$' % path
+
+
 def combos(*lists): return [list(c) for c in itertools.product(*lists)]
 
 
@@ -462,45 +517,45 @@ def table():
     def add(name, body, ref, shapes, doc, demos=()): T.append(dict(name=name, body=body, ref=ref, shapes=shapes, doc=doc, demos=list(demos)))
     B = [sh_bool] + NONBOOL
     for nm, neutral in (('and', True), ('or', False)):
-        add(nm, r'logical::%s::get::\{closure#0\}::<impl at [^>]*>::get$|(^|::)%s::get::\{closure#0\}::<impl at [^>]*>::get$' % (nm, nm), ref_and_or(neutral), combos(B, B) + combos(B, B, B),
+        add(nm, body_of('boolean/logical/' + nm), ref_and_or(neutral), combos(B, B) + combos(B, B, B),
             'true / false by the truth of all (any) arguments, nothing when an argument is not a boolean',
             [(f'({nm} true true true)', nm == 'and' or True), (f'({nm} false false)', False), (f'({nm} true false true)', nm == 'or'), (f'({nm} false true)', nm == 'or'), (f'({nm} {"true" if nm == "and" else "false"} 12)', 'nothing'),
              (f'({nm} {"true" if nm == "and" else "false"} {"true" if nm == "and" else "false"} null)', 'nothing')])
-    add('xor', r'(^|::)xor::get::\{closure#0\}::<impl at [^>]*>::get$', ref_xor, combos(B, B), 'true iff exactly one of the two arguments is true; nothing unless both are booleans',
+    add('xor', body_of('boolean/logical/xor'), ref_xor, combos(B, B), 'true iff exactly one of the two arguments is true; nothing unless both are booleans',
         [('(xor true false)', True), ('(xor false true)', True), ('(xor true true)', False), ('(xor false false)', False), ('(xor true 1)', 'nothing'), ('(xor null false)', 'nothing')])
-    add('not', r'(^|::)not::get::\{closure#0\}::<impl at [^>]*>::get$', ref_not, combos(ALL_TYPES), 'the negation of a boolean, nothing for anything else',
+    add('not', body_of('boolean/logical/not'), ref_not, combos(ALL_TYPES), 'the negation of a boolean, nothing for anything else',
         [('(not true)', False), ('(not false)', True), ('(not 0)', 'nothing'), ('(not null)', 'nothing'), ('(not "true")', 'nothing')])
-    add('if', r'(^|::)condition::get::\{closure#0\}::<impl at [^>]*>::get$', ref_if, combos(B, [sh_opq, sh_nothing], [sh_opq, sh_nothing]),
+    add('if', body_of('basic/flow/condition'), ref_if, combos(B, [sh_opq, sh_nothing], [sh_opq, sh_nothing]),
         'the second argument when the first is true, the third when it is false, nothing when it is not a boolean',
         [('(if true 1 2)', 1), ('(if false 1 2)', 2), ('(if 1 1 2)', 'nothing'), ('(if null 1 2)', 'nothing'), ('(if true .x 2)', 'nothing'), ('(if false 1 .x)', 'nothing'), ('(if false .x 2)', 2), ('(if true 1 .x)', 1)])
     for nm, file, pred, lits in (('array?', 'is_array', lambda a: tname(a) == 'array', ('[1]', '{}')), ('bool?', 'is_bool', lambda a: tname(a) == 'bool', ('false', '0')), ('null?', 'is_null', lambda a: tname(a) == 'null', ('null', 'false')),
                                  ('number?', 'is_number', lambda a: tname(a) == 'number', ('-1.5', '"1"')), ('object?', 'is_object', lambda a: tname(a) == 'object', ('{}', '[]')), ('string?', 'is_string', lambda a: tname(a) == 'string', ('""', '1')),
                                  ('empty?', 'is_empty', lambda a: a is None, ('.nope', 'null'))):
-        add(nm, r'check_types::%s::get::\{closure#0\}::<impl at [^>]*>::get$|(^|::)%s::get::\{closure#0\}::<impl at [^>]*>::get$' % (file, file), ref_is(pred), combos(ALL_TYPES),
+        add(nm, body_of('type_group/check_types/' + file), ref_is(pred), combos(ALL_TYPES),
             'true exactly for arguments of that type (nothing is none of the types), false otherwise', [(f'({nm} {lits[0]})', True), (f'({nm} {lits[1]})', False)] + ([(f'({nm} .nope)', False)] if nm != 'empty?' else [('(empty? "")', False), ('(empty? [])', False)]))
     for nm, file, ty, lits in (('as_array', 'as_array', 'array', ('[1,"a"]', '{}')), ('as_bool', 'as_bool', 'bool', ('false', '0')), ('as_number', 'as_number', 'number', ('-2', '"2"')), ('as_object', 'as_object', 'object', ('{"a":[1]}', '[]')),
                                ('as_string', 'as_string', 'string', ('"a"', '1'))):
-        add(nm, r'cast::%s::get::\{closure#0\}::<impl at [^>]*>::get$|(^|::)%s::get::\{closure#0\}::<impl at [^>]*>::get$' % (file, file), ref_as(lambda a, ty=ty: tname(a) == ty), combos(ALL_TYPES + [sh_arr(2), sh_obj(2), sh_str(2)]),
+        add(nm, body_of('type_group/cast/' + file), ref_as(lambda a, ty=ty: tname(a) == ty), combos(ALL_TYPES + [sh_arr(2), sh_obj(2), sh_str(2)]),
             'the argument itself when it has that type, nothing otherwise', [(f'({nm} {lits[0]})', json.loads(lits[0])), (f'({nm} {lits[1]})', 'nothing'), (f'({nm} .nope)', 'nothing')])
     EL = [sh_bool, sh_null, sh_pos]
     def arr_of(*els): return lambda i: ('arr', [e(f'{i}_{j}') for j, e in enumerate(els)])
     lists = [arr_of(*c) for n in range(0, 4) for c in itertools.product(EL, repeat=n)]
-    add('all', r'list_folding::all::get::\{closure#0\}::<impl at [^>]*>::get$|(^|::)all::get::\{closure#0\}::<impl at [^>]*>::get$', ref_all, combos(lists + [sh_nothing, sh_obj(1), sh_bool]),
+    add('all', body_of('list/list_folding/all'), ref_all, combos(lists + [sh_nothing, sh_obj(1), sh_bool]),
         'true iff the list is not empty and every item is true; nothing for a non-list', [('(all [true, true])', True), ('(all [true, false, true])', False), ('(all [])', False), ('(all [true, 1])', False), ('(all [true, null, true])', False), ('(all true)', 'nothing')])
-    add('any', r'list_folding::any::get::\{closure#0\}::<impl at [^>]*>::get$|(^|::)any::get::\{closure#0\}::<impl at [^>]*>::get$', ref_any, combos(lists + [sh_nothing, sh_obj(1), sh_bool]),
+    add('any', body_of('list/list_folding/any'), ref_any, combos(lists + [sh_nothing, sh_obj(1), sh_bool]),
         'true iff some item of the list is true; nothing for a non-list', [('(any [false, true])', True), ('(any [false, false])', False), ('(any [])', False), ('(any [1, "true", null])', False), ('(any [null, false, true])', True), ('(any true)', 'nothing')])
     S = [sh_str(0), sh_str(1), sh_str(2)]
-    add('concat', r'string::concat::get::\{closure#0\}::<impl at [^>]*>::get$|(^|::)concat::get::\{closure#0\}::<impl at [^>]*>::get$', ref_concat, combos(S + [sh_pos, sh_nothing], S + [sh_null, sh_nothing]) + combos(S, [sh_str(1)], S + [sh_arr(1)]),
+    add('concat', body_of('string/concat'), ref_concat, combos(S + [sh_pos, sh_nothing], S + [sh_null, sh_nothing]) + combos(S, [sh_str(1)], S + [sh_arr(1)]),
         'the concatenation of its string arguments in order; nothing when an argument is not a string', [('(concat "a" "" "bc")', 'abc'), ('(concat "x" "y")', 'xy'), ('(concat "a" 1)', 'nothing'), ('(concat "" "")', ''), ('(concat "a" "b" null)', 'nothing')])
     SL = [arr_of(), arr_of(sh_str(1)), arr_of(sh_str(1), sh_str(2)), arr_of(sh_str(2), sh_str(1), sh_str(1)), arr_of(sh_str(1), sh_pos), arr_of(sh_null, sh_str(1)), sh_nothing, sh_str(1), sh_obj(1)]
-    add('join', r'list_folding::join::get::\{closure#0\}::<impl at [^>]*>::get$|(^|::)join::get::\{closure#0\}::<impl at [^>]*>::get$', ref_join, combos(SL) + combos(SL, [sh_str(0), sh_str(1), sh_str(2)]),
+    add('join', body_of('list/list_folding/join'), ref_join, combos(SL) + combos(SL, [sh_str(0), sh_str(1), sh_str(2)]),
         'the items of a list of strings joined with the separator (", " when omitted); nothing when an item is not a string or the first argument not a list',
         [('(join ["a","b","c"])', 'a, b, c'), ('(join ["a","b"] "-")', 'a-b'), ('(join ["a"] "-")', 'a'), ('(join [] "-")', ''), ('(join ["a", 1])', 'nothing'), ('(join ["a","b","c"] "")', 'abc'), ('(join "a")', 'nothing')])
     A = [sh_arr(0), sh_arr(1), sh_arr(2), sh_arr(3)]
-    add('indexed', r'list_manipulations::indexed::get::\{closure#0\}::<impl at [^>]*>::get$|(^|::)indexed::get::\{closure#0\}::<impl at [^>]*>::get$', ref_indexed, combos(A + [sh_nothing, sh_obj(1), sh_str(1), sh_pos]),
+    add('indexed', body_of('list/list_manipulations/indexed'), ref_indexed, combos(A + [sh_nothing, sh_obj(1), sh_str(1), sh_pos]),
         'a list of {index, value} objects, one per element, in order; nothing for a non-list', [('(indexed ["a","b"])', [{'value': 'a', 'index': 0}, {'value': 'b', 'index': 1}]), ('(indexed [])', []), ('(indexed {})', 'nothing')])
     O = [sh_obj(0), sh_obj(1), sh_obj(2), sh_obj(3)]
-    add('entries', r'object_to_list::entries::get::\{closure#0\}::<impl at [^>]*>::get$|(^|::)entries::get::\{closure#0\}::<impl at [^>]*>::get$', ref_entries, combos(O + [sh_nothing, sh_arr(1), sh_str(1), sh_pos]),
+    add('entries', body_of('object/object_to_list/entries'), ref_entries, combos(O + [sh_nothing, sh_arr(1), sh_str(1), sh_pos]),
         'a list of {key, value} objects, one per member, in member order; nothing for a non-object', [('(entries {"b":1,"a":2})', [{'value': 1, 'key': 'b'}, {'value': 2, 'key': 'a'}]), ('(entries {})', []), ('(entries [1])', 'nothing')])
     def key_of(j): return lambda i: ('ostr', f'K0_{j}')
     def newkey(i): return ('ostr', 'KNEW')
@@ -509,7 +564,7 @@ def table():
         for k in range(0, 4):
             for key in [key_of(j) for j in range(k)] + [newkey]: shapes.append([sh_obj(k), key, sh_opq])
         shapes += [[sh_arr(1), newkey, sh_opq], [sh_nothing, newkey, sh_opq], [sh_obj(1), sh_pos, sh_opq], [sh_obj(1), sh_nothing, sh_opq], [sh_obj(1), newkey, sh_nothing], [sh_obj(1), key_of(0), sh_nothing], [sh_str(1), newkey, sh_opq]]
-        add(nm, r'manipulate_object::%s::get::\{closure#0\}::<impl at [^>]*>::get$|(^|::)%s::get::\{closure#0\}::<impl at [^>]*>::get$' % (file, file), ref_put_if(absent), shapes,
+        add(nm, body_of('object/manipulate_object/' + file), ref_put_if(absent), shapes,
             ('adds the member only when the object has no such key (an existing member keeps its value and place)' if absent else 'replaces the value only when the object has such a key (in place); otherwise the object is unchanged') + '; nothing for ill-typed or absent arguments',
             [(f'({nm} {{"a":1,"b":2}} "a" 9)', {'a': 1, 'b': 2} if absent else {'a': 9, 'b': 2}), (f'({nm} {{"a":1,"b":2}} "c" 9)', {'a': 1, 'b': 2, 'c': 9} if absent else {'a': 1, 'b': 2}), (f'({nm} {{"a":1,"b":2}} "b" 9)', {'a': 1, 'b': 2} if absent else {'a': 1, 'b': 9}),
              (f'({nm} [1] "a" 9)', 'nothing'), (f'({nm} {{}} 1 9)', 'nothing'), (f'({nm} {{"a":1}} "a" .nope)', 'nothing')])
@@ -557,6 +612,16 @@ def _task(args):
                     try: mv['args'] = [to_json(a, m) if a is not None else 'nothing' for a in absargs]
                     except Exception: mv['args'] = [pretty(a, m) for a in absargs]
                 mv['fn'] = entry['name']; mv['shape'] = [pretty(a) for a in absargs]
+                if m is not None:
+                    try:
+                        lits = ['.nope' if a is None else json.dumps(to_json(a, m), ensure_ascii=False) for a in absargs]
+                        mv['expr'] = '(' + entry['name'] + ' ' + ' '.join(lits) + ')'
+                        for cnd, e_ in cases:
+                            if z3.is_true(m.eval(cnd, True)):
+                                alts = e_[1] if e_ is not None and e_[0] == 'anyof' else [e_]
+                                mv['expected_any'] = ['nothing' if x is None else to_json(x, m) for x in alts]
+                    except Exception as ex_:
+                        mv['expr_error'] = str(ex_)[:100]
                 res['cands'].append({'role': role, 'text': f'{desc} {text}', 'model': mv, 'unmodelled': hav})
             if d.status != 'returned':
                 ok_, m = ex.valid(d, z3.BoolVal(False))
@@ -623,11 +688,196 @@ def replay2(ctx, pairs):
         except Exception: return 'unparsable:' + out
     for e, c in pairs:
         c.status = 'unit'
+        if c.model.get('expr') and 'expected_any' in c.model:
+            got = call(c.model['expr'])
+            if not any(jsame(got, x) for x in c.model['expected_any']):
+                c.replay = {'argv': ['--select', c.model['expr'] + '=r'], 'stdin': '{}', 'expected': c.model['expected_any'], 'actual': got}; c.status = 'reproduced'; continue
         for expr, exp in e['demos']:
             got = call(expr)
-            same = got == exp and (not isinstance(exp, dict) or list(got) == list(exp)) and type(got) == type(exp)
-            if isinstance(exp, list) and isinstance(got, list): same = got == exp
-            if not same:
+            if not jsame(got, exp):
                 c.replay = {'argv': ['--select', expr + '=r'], 'stdin': '{}', 'expected': exp, 'actual': got}; c.status = 'reproduced'; break
         if c.status != 'reproduced':
             c.replay = {'note': 'the fixed demonstrations of this function all give the documented value natively; the counterexample is exact at function level (fully modelled path)', 'demos': [d[0] for d in e['demos']]}
+
+
+# ---------------------------------------------------------------- functions that take a function argument
+# The function argument (the second getter) is a protocol summary: its k-th evaluation answers the k-th entry of an
+# answer script, and records the context it was evaluated in. Every script over the answer alphabet is run.
+A_TRUE = ('bool', z3.BoolVal(True)); A_FALSE = ('bool', z3.BoolVal(False))
+def a_num(i): return ('num', 'Positive', z3.BitVec(f'ans{i}', 64))
+def a_ostr(tag): return ('ostr', tag)
+def a_arr(i, k): return ('arr', [('opq', f'R{i}_{j}') for j in range(k)])
+
+
+def ref_filter_members(which):
+    def ref(args, answers):
+        o = args[0]
+        if tname(o) != 'object': return None, []
+        inputs = [k if which == 'key' else v for k, v in o[1]]
+        kept = [(k, v) for (k, v), a in zip(o[1], answers) if a is not None and a[0] == 'bool' and z3.is_true(a[1])]
+        return ('obj', kept), inputs
+    return ref
+
+
+def ref_map_values(args, answers):
+    o = args[0]
+    if tname(o) != 'object': return None, []
+    return ('obj', [(k, a) for (k, v), a in zip(o[1], answers) if a is not None]), [v for k, v in o[1]]
+
+
+def ref_map_keys(args, answers):
+    o = args[0]
+    if tname(o) != 'object': return None, []
+    out = []
+    for (k, v), a in zip(o[1], answers):
+        if a is None or tname(a) != 'string': continue
+        for i, (kk, vv) in enumerate(out):
+            if kk == a: out[i] = (kk, v); break
+        else: out.append((a, v))
+    return ('obj', out), [k for k, v in o[1]]
+
+
+def ref_flat_map(args, answers):
+    l = args[0]
+    if tname(l) != 'array': return None, []
+    out = []
+    for a in answers:
+        if a is not None and a[0] == 'arr': out += a[1]
+    return ('arr', out), list(l[1])
+
+
+def ref_group_by(args, answers):
+    l = args[0]
+    if tname(l) != 'array': return None, []
+    groups = []; inputs = []
+    for x, a in zip(l[1], answers):
+        inputs.append(x)
+        if a is None or tname(a) != 'string': return None, inputs           # "a key that is not a string: nothing"
+        for g in groups:
+            if g[0] == a: g[1].append(x); break
+        else: groups.append((a, [x]))
+    return ('obj', [(k, ('arr', xs)) for k, xs in groups]), inputs
+
+
+def ref_map(args, answers):
+    l = args[0]
+    if tname(l) != 'array': return None, []
+    return ('arr', [a for a in answers if a is not None]), list(l[1])
+
+
+def ref_filter(args, answers):
+    l = args[0]
+    if tname(l) != 'array': return None, []
+    return ('arr', [x for x, a in zip(l[1], answers) if a is not None and a[0] == 'bool' and z3.is_true(a[1])]), list(l[1])
+
+
+def fn_table():
+    T = []
+    def add(name, body, ref, colls, alphabet, doc, demos): T.append(dict(name=name, body=body, ref=ref, colls=colls, alphabet=alphabet, doc=doc, demos=demos))
+    O = [sh_obj(k) for k in range(4)]; A = [sh_arr(k) for k in range(4)]
+    BOOLISH = [lambda i: A_TRUE, lambda i: A_FALSE, lambda i: None, a_num, lambda i: ('null',)]
+    rx = lambda mod, nm: body_of(mod.replace('::', '/') + '/' + nm)
+    add('filter_keys', rx('object::functional', 'filter_keys'), ref_filter_members('key'), O, BOOLISH, 'keeps exactly the members whose key the function answers with true, in order; the function sees the key as input and the current input as parent',
+        [('(filter_keys {"a":1,"bb":2,"c":3} (= . "bb"))', {'bb': 2}), ('(filter_keys {"a":1,"b":2} true)', {'a': 1, 'b': 2}), ('(filter_keys {"a":1,"b":2} 1)', {}), ('(filter_keys {"a":1,"b":2} (!= . "a"))', {'b': 2}), ('(filter_keys [1] true)', 'nothing')])
+    add('filter_values', rx('object::functional', 'filter_values'), ref_filter_members('value'), O, BOOLISH, 'keeps exactly the members whose value the function answers with true, in order; the function sees the value as input',
+        [('(filter_values {"a":1,"bb":2,"c":3} (= . 2))', {'bb': 2}), ('(filter_values {"a":1,"b":2} true)', {'a': 1, 'b': 2}), ('(filter_values {"a":1,"b":2} null)', {}), ('(filter_values {"a":1,"b":2,"c":1} (= . 1))', {'a': 1, 'c': 1}), ('(filter_values [1] true)', 'nothing')])
+    add('map_values', rx('object::functional', 'map_values'), ref_map_values, O, [a_num, lambda i: None, lambda i: ('opq', f'R{i}')], 'every member keeps its key and place and gets the value the function yields for its value; members for which it yields nothing are dropped',
+        [('(map_values {"a":1,"b":2} (+ . 10))', {'a': 11, 'b': 12}), ('(map_values {"a":{"x":1},"b":{},"c":{"x":3}} .x)', {'a': 1, 'c': 3}), ('(map_values {} 1)', {}), ('(map_values [1] 1)', 'nothing')])
+    add('map_keys', rx('object::functional', 'map_keys'), ref_map_keys, O, [lambda i: a_ostr(f'NK{i}'), lambda i: a_ostr('NKSAME'), lambda i: None, a_num], 'every member whose key the function maps to a string is kept, in order, under the new key; other members are dropped',
+        [('(map_keys {"a":1,"b":2} (concat "_" .))', {'_a': 1, '_b': 2}), ('(map_keys {"a":1,"b":2} 1)', {}), ('(map_keys {"a":1,"b":2,"c":3} (if (= . "b") .nope (concat . .)))', {'aa': 1, 'cc': 3}), ('(map_keys [1] "a")', 'nothing')])
+    add('flat_map', rx('list::functional', 'flat_map'), ref_flat_map, A, [lambda i: a_arr(i, 0), lambda i: a_arr(i, 1), lambda i: a_arr(i, 2), lambda i: None, a_num], 'the concatenation, in order, of the lists the function yields per element; elements for which it yields anything else contribute nothing',
+        [('(flat_map [[1,2],[3],[]] .)', [1, 2, 3]), ('(flat_map [[1,2],5,[3]] .)', [1, 2, 3]), ('(flat_map [1,2] (range .))', [0, 0, 1]), ('(flat_map [] .)', []), ('(flat_map {} .)', 'nothing')])
+    add('group_by', rx('list::functional', 'group_by'), ref_group_by, A, [lambda i: a_ostr('GA'), lambda i: a_ostr('GB'), lambda i: None, a_num], 'an object with one member per distinct key in first-seen order, each holding its elements in list order; nothing when a key is not a string',
+        [('(group_by ["a","bb","c","dd","eee"] (stringify (size .)))', {'1': ['a', 'c'], '2': ['bb', 'dd'], '3': ['eee']}), ('(group_by [1,2] (stringify .))', {'1': [1], '2': [2]}), ('(group_by [] .)', {}), ('(group_by ["a", 1] .)', 'nothing'), ('(group_by {} .)', 'nothing')])
+    add('map', rx('list::functional', 'map'), ref_map, A, [a_num, lambda i: None, lambda i: ('opq', f'R{i}')], 'the values the function yields per element, in order (nothing is dropped)',
+        [('(map [1,2,3] (+ . 1))', [2, 3, 4]), ('(map [{"x":1},{},{"x":3}] .x)', [1, 3]), ('(map [] .)', []), ('(map {} .)', 'nothing')])
+    add('filter', rx('list::functional', 'filter'), ref_filter, A, BOOLISH, 'exactly the elements the function answers with true, in order',
+        [('(filter [1,5,2,7] (> . 2))', [5, 7]), ('(filter [true,1,"true",false,true] .)', [True, True]), ('(filter [] .)', []), ('(filter [1,2] (= . 2))', [2]), ('(filter {} .)', 'nothing')])
+    return T
+
+
+def _ftask(args):
+    ctx, entry, inl = args
+    res = {'paths': 0, 'obl': 0, 'ok': 0, 'cands': [], 'queries': 0, 'solver_s': 0.0, 'unh': {}, 'sums': [], 'bodies': [], 'sample': None}
+    def s_with_input(ex, st, func, a, ty):
+        o = named(st, st.fresh_name('ctx'), 'Context'); st.heap[o.oid]['chain'] = ('with_input', origin(st, a[0]), deep(st, ex, a[1])); return [(st, o)]
+    colls = list(entry['colls']) + [sh_nothing, sh_pos, sh_str(1)] + ([sh_arr(1)] if entry['colls'][0](0)[0] == 'obj' else [sh_obj(1)])
+    for mk in colls:
+        coll = mk(0)
+        n = len(coll[1]) if coll is not None and coll[0] in ('arr', 'obj') and tname(coll) == ('array' if entry['colls'][0](0)[0] == 'arr' else 'object') else 0
+        for script in itertools.product(entry['alphabet'], repeat=n):
+            answers = [mk_a(i) for i, mk_a in enumerate(script)]
+            def s_apply(ex, st, func, a, ty, answers=answers, coll=coll):
+                idx = cval(a[2].t)
+                if idx == 0: return [(st, none(st) if coll is None else some(st, build(st, ex, coll)))]
+                c = obj(st, a[1]); k = sum(1 for e in st.events if e[0] == 'eval')
+                st.events.append(('eval', idx, st.heap[c.oid].get('chain', origin(st, c))))
+                if k >= len(answers): raise Unmodelled('the function argument is evaluated more often than there are elements')
+                return [(st, none(st) if answers[k] is None else some(st, build(st, ex, answers[k])))]
+            base = make_summaries({})
+            drop = ('as Iterator>::enumerate$', r'as Iterator>::collect::<', 'as Iterator>::map::<JsonValue', r' as Into<JsonValue>>::into$|<JsonValue as From<.*>>::from$', r'<usize as Into<JsonValue>>::into$', 'Arguments>::apply', 'dyn Get as Get')
+            summ = [(r'Arguments>::apply$', s_apply), (r'Context::with_inupt$', s_with_input)] + extra_summaries() + [s for s in base if not any(d in s[0] for d in drop)]
+            ex = ctx.exec(summaries=summ, inline=inl, max_visits=60)
+            F = ex.find(entry['body'])
+            st = State(); so = named(st, 'self', 'Impl'); selfref = slot(st, so, 'self*'); c = slot(st, named(st, 'CTX', 'Context'), 'ctx*')
+            st.heap[so.oid][('f', None, 0)] = seqobj(st, 'Vec', [named(st, f'G{i}', 'Rc<dyn Get>') for i in range(2)], origin='self.0')
+            if coll is not None and coll[0] == 'str': st.pc.append(utf8_valid(coll[1]))
+            PANICS.clear()
+            ex.new_frame(st, F, [selfref, c])
+            done = ex.run(st) + list(PANICS); PANICS.clear()
+            exp, inputs = entry['ref']([coll], answers)
+            desc = f'({entry["name"]} {pretty(coll)} f) with f answering [{", ".join(pretty(a) for a in answers)}]'
+            for d in done:
+                res['paths'] += 1
+                if d.status == 'infeasible': continue
+                res['obl'] += 1
+                hav = (d.havoc or [None])[0]
+                def cand(role, text, m=None):
+                    res['cands'].append({'role': role, 'text': f'{desc} {text}', 'model': {'fn': entry['name']}, 'unmodelled': hav})
+                if d.status != 'returned':
+                    cand('panic' if d.status == 'panic' else f'path-{d.status}', f'{d.status}: {d.notes[-1] if d.notes else ""}'); continue
+                r = obj(d, d.ret); rd = cval(ex.discr(d, r).t)
+                if rd is None: cand('symbolic-result', 'returns an Option whose variant the path does not decide'); continue
+                got = deep(d, ex, d.heap[r.oid][('f', 'Some', 0)]) if rd == 1 else None
+                evs = [e for e in d.events if e[0] == 'eval']
+                # evaluations: once per element, in order, each in CTX.with_inupt(<the element / key / value>); when the result is
+                # nothing because of an answer (group_by) the evaluations may stop there
+                want = [('with_input', 'CTX', x if x[0] != 'ostr' else x) for x in inputs]
+                seen = [e[2] for e in evs]
+                ok_ev = seen == want[:len(seen)] and (len(seen) == len(want) or exp is None)
+                if not ok_ev: cand('evaluation-contexts', f'evaluates the function in {seen}, documented: once per element in order, in {want}'); continue
+                ok_, m = ex.valid(d, match(got, exp))
+                if ok_:
+                    res['ok'] += 1
+                    if res['sample'] is None and n >= 2: res['sample'] = {'call': desc, 'path_result': pretty(got)[:160], 'evaluation_contexts': str(seen)[:200], 'verdict': 'equals the documented value'}
+                else: cand('wrong-result', f'returns {pretty(got, m)}, documented: {pretty(exp, m)}')
+            res['queries'] += ex.queries; res['solver_s'] += ex.solver_s
+            for k_, v in ex.unhandled.items(): res['unh'][k_] = res['unh'].get(k_, 0) + v
+            res['sums'] += list(ex.used_summaries); res['bodies'] += list(ex.used_bodies)
+    return res
+
+
+def kernels_fn(ctx, names=None):
+    from .par import pmap
+    run = ctx.run
+    T = [e for e in fn_table() if names is None or e['name'] in names]
+    run.bounds['kernels_fn'] = 'lists / objects of 0..3 opaque elements x every script of answers of the function argument over its alphabet (true / false / nothing / a number / null; strings; lists of 0..2) ; ill-typed first arguments'
+    run.assume('kernels_fn: the function argument is a protocol summary (k-th evaluation gives the k-th scripted answer) - what the real argument computes is the argument\'s own kernel')
+    inl = conversions(ctx)
+    results = pmap(_ftask, [(ctx, e, inl) for e in T])
+    allc = []
+    for e, res in zip(T, results):
+        fam = run.family(f'fn.{e["name"]}', f'({e["name"]} C f): {e["doc"]}; the function is evaluated once per element, in order, with the element (key / value) as input and the current input as parent; nothing for a first argument of the wrong type; never panics')
+        fam.obligations += res['obl']; fam.discharged += res['ok']; fam.paths += res['paths']; fam.witnesses += res['obl']
+        run.paths += res['paths']; run.queries += res['queries']; run.solver_s += res['solver_s']
+        for k, v in res['unh'].items(): run.unmodelled[k] += v
+        for s in res['sums']: run.summaries[s] = True
+        for b in res['bodies']: run.functions[b] = True
+        if res['sample']: fam.add_sample(res['sample'])
+        seen = set()
+        for cd in res['cands']:
+            if cd['role'] in seen: continue
+            seen.add(cd['role'])
+            c = Candidate(fam.name, cd['role'], cd['text'], cd['model'], unmodelled=cd['unmodelled'])
+            fam.candidates.append(c); allc.append((e, c))
+    replay2(ctx, allc)
